@@ -335,16 +335,6 @@ def best_layout(
             flat_whitespace_triple = (indent, FLAT_MODE, whitespace)
             broken_whitespace_triple = (indent, BREAK_MODE, whitespace)
 
-            if len(docs) == 2:
-                if does_fit:
-                    triplestack.append(flat_whitespace_triple)
-                    triplestack.append(flat_content_triple)
-                else:
-                    triplestack.append(broken_whitespace_triple)
-                    triplestack.append(broken_content_triple)
-
-                continue
-
             remaining = docs[2:]
             remaining_triple = (indent, mode, Fill(remaining))
 
